@@ -70,6 +70,13 @@ def vectors(tier, seed):
         vs.append(("RESOLVE", "host", h, 0))
         if len(h) < 80 and not _numeric_form(h):
             vs.append(("RESOLVE_PTR", "host", h, 0))
+    # the connection is to carry TLS (tls=True): the SOCKS target is still exactly the name given, a fully qualified
+    # one with its trailing dot included
+    tlsvs = []
+    for h in ("example.com", "example.com.", "a.b.example.org.", "xn--bcher-kva.example."):
+        for p in (443, 80, 65535):
+            tlsvs.append(("CONNECT", "host", h, p, "ok", True))
+            tlsvs.append(("CONNECT", "host", h, p, "ok", False))
     # IPv6 literals with a zone id, for reverse lookups: the zone cannot be sent, so the target is refused (not sent without it)
     for h in ("fe80::1%eth0", "::1%lo", "ff02::2%3", "fe80::dead:beef%12"):
         vs.append(("RESOLVE_PTR", "v6zone", h, 0))
@@ -86,6 +93,7 @@ def vectors(tier, seed):
     # the server's method selection: mostly 'no authentication' in one segment; every 4th vector another reply
     sels = ["split", "m2", "m2split", "none", "badver", "m1", "split", "sync", "sync", "coalesced", "coalesced"]
     vs = [v + (("ok",) if i % 4 else (sels[(i // 4) % len(sels)],)) for i, v in enumerate(vs)]
+    vs += tlsvs
     if tier == "thorough":
         for p in range(65536):
             vs.append(("CONNECT", "host", "p.example", p, "ok"))
@@ -148,7 +156,7 @@ def run(pid, tier, seed):
 def replay(pid, path):
     p = json.load(open(path))
     v = p["vector"]
-    rec = sr.vector(v["req"], v["kind"], v["host"], v["port"], v.get("sel", "ok"))
+    rec = sr.vector(v["req"], v["kind"], v["host"], v["port"], v.get("sel", "ok"), v.get("tls", False))
     t = dict(rec, steps=[1])
     t.pop("host")
     res, r = tlc.validate_traces("SocksReqTrace", "SocksReqTrace.cfg", [t])
